@@ -68,6 +68,15 @@ func genC04(tier string, seed int64) (*Family, error) {
 		fmt.Fprintf(&b, "\n// sort model, a rule fails in its top-level return expression, %d rules\nfunc %s() {\n\tn := %d\n\ts := symSal(n)\n\tz := symVals(\"z\", n)\n\tf := make([]bool, n)\n\tfor i := range f {\n\t\tf[i] = z[i] == 0\n\t}\n\tb := vnd.Bool(\"b\")\n\tdc := newDC(nil)\n\taddVals(dc, \"z\", z)\n\trb := buildText(dc, rulesTextRetFail(n, s))\n\teng := engine.NewGengine()\n\terr := eng.Execute(rb, b)\n\tvnd.Reach(\"executed\")\n\tcheckSortedStarts(vnd.Trace(), n, allTrue(n), s, nil, f, b, err)\n\tres, _ := eng.GetRulesResultMap()\n\tfor i := 0; i < n; i++ {\n\t\tif vnd.Count(sname(i)) == 1 {\n\t\t\t_, has := res[\"r\"+strconv.Itoa(i)]\n\t\t\tvnd.Assert(vnd.Iff(has, !f[i]), \"a failing return expression yields no value, a successful one does\")\n\t\t}\n\t}\n}\n", n, name, n)
 		fam.Instances = append(fam.Instances, Instance{Func: name, Stratum: "Execute:return-fault", Desc: fmt.Sprintf("sort model, failing return expression, %d rules", n), Expect: []string{"executed"}})
 	}
+	// a selected call must leave the builder's sorted list intact for the next call
+	for k, call := range []string{
+		"eng.ExecuteSelectedRules(rb, names)", "eng.ExecuteSelectedRulesWithControl(rb, true, names)", "eng.ExecuteSelectedRulesWithControlAsGivenSortedName(rb, true, names)",
+		"eng.ExecuteSelectedRulesWithControlAndStopTag(rb, true, &engine.Stag{}, names)", "eng.ExecuteSelectedRulesWithControlAndStopTagAsGivenSortedName(rb, true, &engine.Stag{}, names)",
+	} {
+		name := fmt.Sprintf("H_SelectedThenExecute_%d", k)
+		fmt.Fprintf(&b, "\n// %s on [r2 r1], then the sort model on the same builder\nfunc %s() {\n\tn := 3\n\ts := symSal(n)\n\tf := symFlags(\"f\", n)\n\tb := vnd.Bool(\"b\")\n\trb := build(n, s, allFalse(n))\n\teng := engine.NewGengine()\n\tnames := []string{\"r2\", \"r1\"}\n\t_ = %s\n\tmark := len(vnd.Trace())\n\taddFlags(rb.Dc, \"f\", f)\n\terr := eng.Execute(rb, b)\n\tvnd.Reach(\"executed\")\n\tcheckSorted(vnd.Trace()[mark:], n, allTrue(n), s, f, b, err)\n}\n", call, name, call)
+		fam.Instances = append(fam.Instances, Instance{Func: name, Stratum: "sequence", Desc: call + " then Execute on the same builder", Expect: []string{"executed"}})
+	}
 	// sorted selected variants: full list in reverse order and a sub-list
 	for n := 2; n <= maxN; n++ {
 		var all, sub []string
